@@ -10,12 +10,18 @@ import numpy as np
 
 
 class Jet:
-    __slots__ = ("v", "g", "h")
+    """v, g, h: value, gradient, Hessian.  V, G, H: the sum of the absolute values of all terms that were added up to give
+    v, g, h (entry by entry) - an a-priori bound on how large the numbers were that cancelled, hence eps*V (G, H) bounds the
+    rounding noise the jet itself carries."""
+    __slots__ = ("v", "g", "h", "V", "G", "H")
 
-    def __init__(self, v, g, h):
+    def __init__(self, v, g, h, V=None, G=None, H=None):
         self.v = v
         self.g = g
         self.h = h
+        self.V = abs(v) if V is None else V
+        self.G = np.abs(g) if G is None else G
+        self.H = np.abs(h) if H is None else H
 
     @staticmethod
     def const(c, n):
@@ -34,12 +40,12 @@ class Jet:
 
     def __add__(self, o):
         o = self._lift(o)
-        return Jet(self.v + o.v, self.g + o.g, self.h + o.h)
+        return Jet(self.v + o.v, self.g + o.g, self.h + o.h, self.V + o.V, self.G + o.G, self.H + o.H)
 
     __radd__ = __add__
 
     def __neg__(self):
-        return Jet(-self.v, -self.g, -self.h)
+        return Jet(-self.v, -self.g, -self.h, self.V, self.G, self.H)
 
     def __sub__(self, o):
         return self + (-self._lift(o))
@@ -50,14 +56,17 @@ class Jet:
     def __mul__(self, o):
         o = self._lift(o)
         og = np.outer(self.g, o.g)
+        oG = np.outer(self.G, o.G)
         return Jet(self.v * o.v, self.v * o.g + o.v * self.g,
-                   self.v * o.h + o.v * self.h + og + og.T)
+                   self.v * o.h + o.v * self.h + og + og.T,
+                   self.V * o.V, self.V * o.G + o.V * self.G, self.V * o.H + o.V * self.H + oG + oG.T)
 
     __rmul__ = __mul__
 
     def _unary(self, f0, f1, f2):
         """Compose with a scalar function with value f0, first derivative f1, second f2 at self.v."""
-        return Jet(f0, f1 * self.g, f1 * self.h + f2 * np.outer(self.g, self.g))
+        return Jet(f0, f1 * self.g, f1 * self.h + f2 * np.outer(self.g, self.g),
+                   abs(f0), abs(f1) * self.G, abs(f1) * self.H + abs(f2) * np.outer(self.G, self.G))
 
     def recip(self):
         v = self.v
